@@ -177,6 +177,17 @@ OkMask(c, cr) ==
 IsGather(c) == c.fn \in {"rle_gather_1d", "brle_gather_1d", "sorted_rle_gather_1d", "sorted_brle_gather_1d"}
 EncRuns(c) == IF c.fn \in {"rle_gather_1d", "sorted_rle_gather_1d", "rle_mask"} THEN RleRuns(c.e) ELSE BrleRuns(c.e)
 OutOfRange(c) == IsGather(c) /\ \E k \in 1..Len(c.idx) : c.idx[k] >= Total(EncRuns(c))
+\* a negative index either raises or is answered as numpy answers it (counted from the end); an index
+\* below -length must raise
+NegIndex(c) == IsGather(c) /\ \E k \in 1..Len(c.idx) : c.idx[k] < 0
+NegGatherClause(c) ==
+    LET cr == EncRuns(c)
+        n == Total(cr)
+        W(k) == IF k < 0 THEN k + n ELSE k
+    IN IF c.exc # "" THEN "ok"
+       ELSE IF \E k \in 1..Len(c.idx) : W(c.idx[k]) < 0 \/ W(c.idx[k]) >= n THEN "out_of_range_index_raises_IndexError"
+       ELSE IF Len(c.res) # Len(c.idx) \/ \E k \in 1..Len(c.idx) : c.res[k] # At(cr, W(c.idx[k]))
+            THEN "negative_index_wraps_like_numpy_or_raises" ELSE "ok"
 
 (***************************************************************************)
 (* Part 2.  Encoding expression trees                                      *)
@@ -234,8 +245,20 @@ MaskSeq(f, m) == IF Len(f) = 0 THEN <<>>
                  ELSE (IF m[1] # 0 THEN <<f[1]>> ELSE <<>>) \o MaskSeq(Tail(f), Tail(m))
 
 \* one clause per read; q is the recorded read, D the denotation
+WrapIx(ix, s) == [a \in 1..Len(ix) |-> IF ix[a] < 0 THEN ix[a] + s[a] ELSE ix[a]]
 ReadClause(D, q) ==
-    IF q.exc # "" THEN "raised_" \o q.exc
+    IF q.r = "gather_oob" THEN
+         \* some row lies outside the array (an index >= the length of its axis, or < -length): the dense
+         \* numpy array raises, so must every encoding (any exception is accepted)
+         (IF \A k \in 1..Len(q.arg) : InShape(WrapIx(q.arg[k], D.shape), D.shape) THEN "harness_index_is_in_range"
+          ELSE IF q.exc = "" THEN "out_of_range_index_must_raise" ELSE "ok")
+    ELSE IF q.r = "gather_neg" THEN
+         \* negative indices in range: raise, or answer as numpy does (counted from the end)
+         (IF q.exc # "" THEN "ok"
+          ELSE IF Len(q.v) # Len(q.arg) THEN "gather_one_value_per_index"
+          ELSE IF \E k \in 1..Len(q.arg) : q.v[k] # AtIx(D, WrapIx(q.arg[k], D.shape))
+               THEN "negative_index_wraps_like_numpy_or_raises" ELSE "ok")
+    ELSE IF q.exc # "" THEN "raised_" \o q.exc
     ELSE CASE q.r = "dense" ->
                 IF q.shape # D.shape THEN "dense_shape"
                 ELSE IF q.flat # D.flat THEN "dense_values" ELSE "ok"
@@ -350,15 +373,36 @@ Apply4(M, t, ix) == [r \in 1..3 |-> M[r][1] * ix[1] + M[r][2] * ix[2] + M[r][3] 
 Det3(M) == M[1][1] * (M[2][2] * M[3][3] - M[2][3] * M[3][2])
          - M[1][2] * (M[2][1] * M[3][3] - M[2][3] * M[3][1])
          + M[1][3] * (M[2][1] * M[3][2] - M[2][2] * M[3][1])
+\* A grid is built with the transform (M4, t4) and then edited in place by the steps of c.hist
+\* (possibly after reads that fill the caches):  apply_transform(Mi, t) : x -> Mi x + t  with an
+\* integer matrix Mi,  apply_scale(s) = apply_transform(diag(s,s,s), 0),  apply_translation(t) =
+\* apply_transform(identity, t),  set = assignment of a new matrix.  The maps, the volume and the
+\* points of the edited grid are those of a grid built with the composed transform.
+MatVec3(M, v) == [r \in 1..3 |-> M[r][1] * v[1] + M[r][2] * v[2] + M[r][3] * v[3]]
+MatMul3(A, B) == [r \in 1..3 |-> [cc \in 1..3 |-> A[r][1] * B[1][cc] + A[r][2] * B[2][cc] + A[r][3] * B[3][cc]]]
+Diag3(a, b, d) == <<<<a, 0, 0>>, <<0, b, 0>>, <<0, 0, d>>>>
+StepM(h) == CASE h.op = "apply_transform" -> h.Mi
+              [] h.op = "apply_scale" -> Diag3(h.s, h.s, h.s)
+              [] h.op = "apply_translation" -> Diag3(1, 1, 1)
+StepT(h) == IF h.op = "apply_scale" THEN <<0, 0, 0>> ELSE h.t4
+RECURSIVE EffTf(_, _, _, _)
+EffTf(M4, t4, h, k) ==
+    IF k > Len(h) THEN <<M4, t4>>
+    ELSE IF h[k].op = "set" THEN EffTf(h[k].M4, h[k].t4, h, k + 1)
+    ELSE EffTf(MatMul3(StepM(h[k]), M4),
+               [r \in 1..3 |-> MatVec3(StepM(h[k]), t4)[r] + StepT(h[k])[r]], h, k + 1)
+GM(c) == IF Has(c, "hist") THEN EffTf(c.M4, c.t4, c.hist, 1)[1] ELSE c.M4
+GT(c) == IF Has(c, "hist") THEN EffTf(c.M4, c.t4, c.hist, 1)[2] ELSE c.t4
+
 \* indices_to_points is the affine map; points_to_indices inverts it on cell centres;
 \* is_filled / points agree with the dense array
 OkGridMaps(c) ==
     LET D == Arr(c.data, c.shape) IN
-    IF \E k \in 1..Len(c.idx) : c.pts4[k] # Apply4(c.M4, c.t4, c.idx[k]) THEN "indices_to_points_is_the_affine_map"
+    IF \E k \in 1..Len(c.idx) : c.pts4[k] # Apply4(GM(c), GT(c), c.idx[k]) THEN "indices_to_points_is_the_affine_map"
     ELSE IF c.back # c.idx THEN "points_to_indices_inverts_indices_to_points"
     ELSE IF Has(c, "filled") /\ \E k \in 1..Len(c.idx) : InShape(c.idx[k], c.shape) /\ c.filled[k] # AtIx(D, c.idx[k])
          THEN "is_filled_equals_dense_at_cell"
-    ELSE IF Has(c, "points4") /\ (Range(c.points4) # {Apply4(c.M4, c.t4, ix) : ix \in FilledIx(D)}
+    ELSE IF Has(c, "points4") /\ (Range(c.points4) # {Apply4(GM(c), GT(c), ix) : ix \in FilledIx(D)}
                                   \/ Len(c.points4) # Cardinality(FilledIx(D)))
          THEN "points_are_centres_of_filled_cells"
     ELSE "ok"
@@ -366,7 +410,42 @@ OkGridMaps(c) ==
 OkGridVolume(c) ==
     LET n == SumSeq(c.data) IN
     IF c.count # n THEN "filled_count"
-    ELSE IF c.vol64 # n * Abs(Det3(c.M4)) THEN "volume_is_filled_count_times_cell_volume" ELSE "ok"
+    ELSE IF c.vol64 # n * Abs(Det3(GM(c))) THEN "volume_is_filled_count_times_cell_volume" ELSE "ok"
+
+\* points inside a cell (centre + d, |d| <= 7/16 of a cell on every axis, d16 = 16 d): the point
+\* handed to the code is  M (idx + d) + t  with the matrix the grid reports, recorded * 64 - it must be
+\* the point of the composed transform;  points_to_indices must name the cell and is_filled must
+\* answer for that cell (False outside the array); results keep the shape of the input
+\* (pshape = shape of the point array, last axis 3)
+OkGridOff(c) ==
+    LET D == Arr(c.data, c.shape)
+        M == GM(c)
+        t == GT(c)
+        P64(k) == [r \in 1..3 |-> MatVec3(M, [a \in 1..3 |-> 16 * c.idx[k][a] + c.d16[k][a]])[r] + 16 * t[r]]
+        lead == [a \in 1..(Len(c.pshape) - 1) |-> c.pshape[a]]
+    IN IF \E k \in 1..Len(c.idx) : \E a \in 1..3 : Abs(c.d16[k][a]) > 7 THEN "harness_offset_leaves_the_cell"
+       ELSE IF \E k \in 1..Len(c.idx) : c.pts64[k] # P64(k) THEN "grid_transform_is_the_composed_one"
+       ELSE IF c.bshape # c.pshape THEN "points_to_indices_keeps_the_shape_of_its_input"
+       ELSE IF c.back # c.idx THEN "points_to_indices_names_the_cell_containing_the_point"
+       ELSE IF c.fshape # lead THEN "is_filled_answers_once_per_point"
+       ELSE IF \E k \in 1..Len(c.idx) :
+                 c.filled[k] # (IF InShape(c.idx[k], c.shape) THEN AtIx(D, c.idx[k]) ELSE 0)
+            THEN "is_filled_answers_for_the_cell_containing_the_point"
+       ELSE "ok"
+
+\* the free functions of voxel.ops: pitch and origin are optional (no scaling / no shift)
+OkOpsMaps(c) ==
+    LET p4 == IF c.has_pitch = 1 THEN c.pitch4 ELSE 4
+        o4 == IF c.has_origin = 1 THEN c.origin4 ELSE <<0, 0, 0>>
+        M == Diag3(p4, p4, p4)
+    IN IF \E k \in 1..Len(c.idx) : c.pts4[k] # Apply4(M, o4, c.idx[k]) THEN "indices_to_points_is_the_affine_map"
+       ELSE IF c.back # c.idx THEN "points_to_indices_inverts_indices_to_points" ELSE "ok"
+\* ops.strip_array: the bounding box of the non-zero cells (its padding result is not constrained)
+OkOpsStrip(c) ==
+    LET D == Arr(c.data, c.shape) IN
+    IF IsEmpty(D) THEN "ok"
+    ELSE IF c.rshape # Stripped(D).shape THEN "strip_array_is_the_bounding_box_of_the_filled_cells"
+    ELSE IF c.rflat # Stripped(D).flat THEN "strip_array_keeps_the_values" ELSE "ok"
 \* binvox export + reload: shape, filled cells and transform survive
 OkGridBinvox(c) ==
     LET D == Arr(c.data, c.shape) IN
@@ -424,13 +503,17 @@ Clause(c) ==
       [] c.fn = "brle_mask" -> OkMask(c, BrleRuns(c.e))
       [] c.fn = "grid_maps" -> OkGridMaps(c)
       [] c.fn = "grid_volume" -> OkGridVolume(c)
+      [] c.fn = "grid_off" -> OkGridOff(c)
+      [] c.fn = "ops_maps" -> OkOpsMaps(c)
+      [] c.fn = "ops_strip_array" -> OkOpsStrip(c)
       [] c.fn = "grid_binvox" -> OkGridBinvox(c)
       [] c.fn = "grid_binvox_points" -> OkGridBinvoxPoints(c)
       [] c.fn = "grid_reload" -> OkGridReload(c)
       [] OTHER -> "unknown_function"
 
 FnClause(c) ==
-    IF OutOfRange(c) THEN (IF c.exc = "IndexError" THEN "ok" ELSE "out_of_range_index_raises_IndexError")
+    IF NegIndex(c) THEN NegGatherClause(c)
+    ELSE IF OutOfRange(c) THEN (IF c.exc = "IndexError" THEN "ok" ELSE "out_of_range_index_raises_IndexError")
     ELSE IF c.exc # "" THEN "raised_" \o c.exc
     ELSE Clause(c)
 
